@@ -124,10 +124,14 @@ PerSystem(x, y) == LET n == Len(x)  hl == SplH(x, n - 1)  hr == SplH(x, 1) IN
              ELSE (IF c = r - 1 THEN SplRowL(x, r) ELSE 0) + (IF c = r THEN SplRowM(x, r) ELSE 0)
                   + (IF c = (IF r = n - 1 THEN 1 ELSE r + 1) THEN SplRowR(x, r) ELSE 0)]],
    rhs |-> [r \in 1..(n - 1) |-> IF r = 1 THEN 6 * (hl * (y[2] - y[1]) - hr * (y[1] - y[n - 1])) ELSE SplRhs(x, y, r)]]
+RECURSIVE GcdSeq(_, _)
+GcdSeq(v, i) == IF i = 0 THEN 0 ELSE Gcd(AbsI(v[i]), GcdSeq(v, i - 1))
 SplineM2(x, y, periodic) ==
   LET n == Len(x)
       sy == IF periodic THEN PerSystem(x, y) ELSE NatSystem(x, y)
-      so == Solve(sy.M, sy.rhs)
+      s0 == Solve(sy.M, sy.rhs)
+      g  == Gcd(AbsI(s0.den), GcdSeq(s0.num, Len(s0.num)))                  \* lowest terms (keeps the cross-multiplied law small)
+      so == IF g > 1 THEN [num |-> [i \in 1..Len(s0.num) |-> s0.num[i] \div g], den |-> s0.den \div g] ELSE s0
   IN [num |-> IF periodic THEN so.num \o <<so.num[1]>> ELSE <<0>> \o so.num \o <<0>>, den |-> so.den]
 \* the defining property, stated independently of how the system was assembled: f' is continuous at knot i, i.e.
 \*   h_{i-1}/6 M_{i-1} + (h_{i-1}+h_i)/3 M_i + h_i/6 M_{i+1} = (y_{i+1}-y_i)/h_i - (y_i-y_{i-1})/h_{i-1}   (times 6 h h den)
